@@ -17,6 +17,7 @@
  * another key's value; no call for a key without destructor; calls with NULL are ignored.
  */
 #include "scen_util.h"
+#include <pthread.h>
 
 #define NKEYS 1024
 #define ND 8
@@ -119,7 +120,7 @@ static void * tbody(void * a) {
     else if (mval[t][k].set && !(live[k] && mval[t][k].inc == incarnation[k])) expected_at_exit[t][k] = -1;   /* key deleted / re-created meanwhile: unspecified */
   }
   if (P.exitmode[t] == E_EXIT) myth_exit((void *)(intptr_t)(t + 1));
-  if (P.exitmode[t] == E_CANCEL) { Z0(myth_cancel(myth_self())); myth_testcancel(); mt_fail("myth_testcancel returned although cancellation was requested"); }
+  if (P.exitmode[t] == E_CANCEL) { Z0(myth_setcancelstate(PTHREAD_CANCEL_ENABLE, 0)); Z0(myth_cancel(myth_self())); myth_testcancel(); mt_fail("myth_testcancel returned although cancellation was requested"); }
   return (void *)(intptr_t)(t + 1);
 }
 
